@@ -1,7 +1,7 @@
 (* C19 — suspend really suspends (silence and no timer faults, both machines).
    Pinned statements only. "After resume the transfer completes as C02" is not claimed here. *)
 From CFDP Require Import Base.Prelude Model.Segments Model.Timer Model.TxTypes Model.Recv Model.Send
-  Proofs.TimerP Proofs.RecvInv Proofs.SendP Proofs.NoSpinP.
+  Proofs.TimerP Proofs.RecvInv Proofs.SendP Proofs.NoSpinP Proofs.ResumeP.
 
 (* Receiver: in a suspended state the loop's send arm and timeout arm are disabled
    (has_pdu_to_send = false, until_timeout = MAX) for any suspension length, and whatever
@@ -34,6 +34,29 @@ Theorem C19_sender_resume_fresh : forall now s, ST s -> (s_phase s = SendEof \/ 
   s_until_timeout now s' = Some (N.min (c_timeout (t_ack (s_timer s))) (c_timeout (t_inact (s_timer s)))).
 Proof. exact sender_resume_fresh. Qed.
 
+(* a resumed receive transaction picks up where it left: Active again; nothing already received is
+   forgotten (segments, metadata, staged file, file size, progress, phase, filestore); the
+   inactivity timer starts afresh; in the data phase (acknowledged; immediate procedure or EOF
+   received) the request queue is rebuilt as the complete list of what is missing now, the NAK
+   timer starts afresh and the send arm is enabled whenever something is missing; in the later
+   phases the ACK timer (Finished retransmission) starts afresh and the Finished PDU is kept *)
+Theorem C19_receiver_resume_picks_up : forall FS now (s : rstate FS),
+  let s' := resume now s in
+  r_state s' = TActive /\
+  r_segs s' = r_segs s /\ r_meta s' = r_meta s /\ r_staged s' = r_staged s /\ r_fsize s' = r_fsize s /\
+  r_recvd s' = r_recvd s /\ r_phase s' = r_phase s /\ r_fs s' = r_fs s /\
+  c_count (t_inact (r_timer s')) = 0 /\ c_paused (t_inact (r_timer s')) = false /\
+  match r_phase s with
+  | RecvData =>
+      if match cfg_mode (r_cfg s) with Acked => true | Unacked => false end
+         && (is_immediate (r_nakproc s) || eof_received s)
+      then r_naks s' = get_all_naks s /\ c_count (t_nak (r_timer s')) = 0 /\ c_paused (t_nak (r_timer s')) = false /\
+           (r_naks s' <> [] -> has_pdu_to_send s' = true)
+      else r_naks s' = r_naks s
+  | _ => c_count (t_ack (r_timer s')) = 0 /\ c_paused (t_ack (r_timer s')) = false /\ r_fin s' = r_fin s
+  end.
+Proof. exact resume_picks_up. Qed.
+
 Example C19_nonvacuous :
   let cfg := mkConfig Acked false false 16 3 10000 3000 4000 [] 1 2 7 1 1 in
   let s := suspend 5 (r_new 0 cfg (Deferred 0) tt) in
@@ -44,3 +67,4 @@ Print Assumptions C19_receiver_silent.
 Print Assumptions C19_sender_silent.
 Print Assumptions C19_paused_timers_do_not_count.
 Print Assumptions C19_sender_resume_fresh.
+Print Assumptions C19_receiver_resume_picks_up.
